@@ -4751,7 +4751,7 @@ def map_placeholder_id_to_iteration(comp_id, do_whiles, known_component_ids, out
     latest = sorted(
         condition_instances,
         # VV: Sort on iteration number from stage<idx:%d>.<iteration-no:%d>#<name:str>
-        key=lambda c: c[1].split('#', 1)[0],
+        key=lambda c: int(c[1].split('#', 1)[0]),
         reverse=True
     )[0]
 
